@@ -62,10 +62,44 @@ func pick(m *methods.Method, di int) (methods.Target, bool) {
 	return m.Targets[di%len(m.Targets)], true
 }
 
+// admissible excludes kinds the fixture cannot provide: when the attach
+// handle itself is a file or a symlink nothing else can be reached from it,
+// so methods that need a second handle have no case there.
+func admissible(m *methods.Method, di int, k methods.Target) bool {
+	return !(derivs[di].Level == 0 && !derivs[di].Create && !k.IsDir() && len(m.Refs) > 0)
+}
+
+// kinds lists the node kinds enumerated for a method and a derivation: the
+// one pick chooses in the quick tier, every admissible kind in the thorough
+// tier.
+func kinds(m *methods.Method, di int, all bool) []methods.Target {
+	t, ok := pick(m, di)
+	if !ok || !admissible(m, di, t) {
+		return nil
+	}
+	if !all || derivs[di].Create {
+		return []methods.Target{t}
+	}
+	out := []methods.Target{t}
+	for _, k := range m.Targets {
+		dup := !admissible(m, di, k)
+		for _, o := range out {
+			if o == k {
+				dup = true
+			}
+		}
+		if !dup {
+			out = append(out, k)
+		}
+	}
+	return out
+}
+
 // params identify a case (alphabets are deterministic, so indices suffice).
 type params struct {
 	Method  string        `json:"method"`
 	Deriv   string        `json:"derivation"`
+	Target  string        `json:"target"`
 	Version int           `json:"version"`
 	Devs    []methods.Dev `json:"deviations"`
 	Human   string        `json:"case"`
@@ -633,7 +667,7 @@ func run(ctx *fw.Ctx, rep *fw.Report) {
 	}()
 
 	rep.Rule = fmt.Sprintf("one fresh session (real Client <-> versionproxy <-> real Server <-> memfs, msize %d, I/O piece %d) per case; "+
-		"case = method x handle derivation {attach, walk 1/2/3 levels, walk 2 levels with a backend that implements WalkGetAttr, create} x version 0..7 x deviation set; "+
+		"case = method x handle derivation {attach, walk 1/2/3 levels, walk 2 levels with a backend that implements WalkGetAttr, create} x kind of node the handle denotes (quick: one admissible kind per derivation, rotating over dir/file/symlink/opened file; thorough: every admissible kind) x version 0..7 x deviation set; "+
 		"the deviation vector is (arguments, backend result values, backend error): the all-defaults case, every 1-field deviation over the full alphabet, "+
 		"and 2-field deviations (quick: one member over its full alphabet x the other over its 2-value reduced alphabet; thorough: full x full), result-field x error pairs excluded; "+
 		"backend error alphabet: linux.Errno and syscall.Errno over %v, os.ErrNotExist/Exist/Permission/Invalid, %%w chains one and two deep, PathError/LinkError/errors.Join, opaque errors; "+
@@ -655,9 +689,12 @@ func run(ctx *fw.Ctx, rep *fw.Report) {
 			if derivs[di].Name != pr.Deriv || m == nil {
 				continue
 			}
-			if t, ok := pick(m, di); ok {
-				s := buildSpace(m, di, t)
-				report(rep, s, pr.Version, pr.Devs, runCase(s, pr.Version, pr.Devs))
+			for _, t := range kinds(m, di, true) {
+				if pr.Target == "" || pr.Target == t.String() {
+					s := buildSpace(m, di, t)
+					report(rep, s, pr.Version, pr.Devs, runCase(s, pr.Version, pr.Devs))
+					break
+				}
 			}
 		}
 		flush(rep, false)
@@ -674,35 +711,37 @@ func run(ctx *fw.Ctx, rep *fw.Report) {
 			continue
 		}
 		for di := range derivs {
-			target, ok := pick(m, di)
-			if !ok {
+			ks := kinds(m, di, !ctx.Quick())
+			if len(ks) == 0 {
 				if ctx.Shard == 0 {
 					rep.Count("combinations_not_applicable", 1)
 				}
 				continue
 			}
-			s := buildSpace(m, di, target)
-			if di == 1 || (di == 0 && fieldInfo[m.Name] == nil) {
-				var fi []string
-				for i, f := range s.fields {
-					fi = append(fi, fmt.Sprintf("%s:%d", f.Name, len(s.alpha[i].Vals)))
+			for _, target := range ks {
+				s := buildSpace(m, di, target)
+				if fieldInfo[m.Name] == nil {
+					var fi []string
+					for i, f := range s.fields {
+						fi = append(fi, fmt.Sprintf("%s:%d", f.Name, len(s.alpha[i].Vals)))
+					}
+					fieldInfo[m.Name] = strings.Join(fi, " ")
 				}
-				fieldInfo[m.Name] = strings.Join(fi, " ")
-			}
-			for version := 0; version <= 7; version++ {
-				methods.EnumDevs(s.alpha, pairs, fullPairs, s.pairOK, func(devs []methods.Dev) {
-					i := idx
-					idx++
-					if !ctx.Mine(i) || expired {
-						return
-					}
-					if i%64 == 0 && ctx.Expired() {
-						expired = true
-						rep.NotExhaustive(fmt.Sprintf("soft budget reached in %s/%s/version %d", m.Name, derivs[di].Name, version))
-						return
-					}
-					report(rep, s, version, devs, runCase(s, version, devs))
-				})
+				for version := 0; version <= 7; version++ {
+					methods.EnumDevs(s.alpha, pairs, fullPairs, s.pairOK, func(devs []methods.Dev) {
+						i := idx
+						idx++
+						if !ctx.Mine(i) || expired {
+							return
+						}
+						if i%64 == 0 && ctx.Expired() {
+							expired = true
+							rep.NotExhaustive(fmt.Sprintf("soft budget reached in %s/%s/version %d", m.Name, derivs[di].Name, version))
+							return
+						}
+						report(rep, s, version, devs, runCase(s, version, devs))
+					})
+				}
 			}
 		}
 	}
@@ -747,7 +786,7 @@ func report(rep *fw.Report, s *space, version int, devs []methods.Dev, r result)
 			rep.Count("cases_backend_error", 1)
 		}
 	}
-	pr := params{Method: m.Name, Deriv: derivs[s.di].Name, Version: version, Devs: devs, Human: s.human(version, devs)}
+	pr := params{Method: m.Name, Deriv: derivs[s.di].Name, Target: s.target.String(), Version: version, Devs: devs, Human: s.human(version, devs)}
 	if r.setupErr != nil {
 		rep.Violate(&fw.Violation{Fingerprint: "setup:" + derivs[s.di].Name + ":" + firstWords(r.setupErr.Error(), 3), Scenario: "c03-case", Params: fw.JSON(pr),
 			Summary: fmt.Sprintf("the handle could not be derived: %v", r.setupErr), Detail: []string{pr.Human}})
@@ -823,7 +862,7 @@ func minimize(h *hit) *hit {
 			}
 			for di := range derivs {
 				target, ok := pick(m, di)
-				if !ok {
+				if !ok || !admissible(m, di, target) {
 					continue
 				}
 				s := buildSpace(m, di, target)
@@ -851,7 +890,7 @@ func minimize(h *hit) *hit {
 	for _, devs := range subsets {
 		for di := range derivs {
 			target, ok := pick(h.s.m, di)
-			if !ok {
+			if !ok || !admissible(h.s.m, di, target) {
 				continue
 			}
 			s := h.s
@@ -896,7 +935,7 @@ func flush(rep *fw.Report, doMinimize bool) {
 		if doMinimize {
 			h = minimize(h)
 		}
-		pr := params{Method: h.s.m.Name, Deriv: derivs[h.s.di].Name, Version: h.version, Devs: h.devs, Human: h.s.human(h.version, h.devs)}
+		pr := params{Method: h.s.m.Name, Deriv: derivs[h.s.di].Name, Target: h.s.target.String(), Version: h.version, Devs: h.devs, Human: h.s.human(h.version, h.devs)}
 		detail := []string{pr.Human, h.issue.Msg, "client returned: " + h.res.outcome, "backend calls during the invocation: [" + h.res.backend + "]"}
 		if h.res.wire != "" {
 			detail = append(detail, "first request field on the wire that differs from the expected request: "+h.res.wire)
